@@ -19,6 +19,18 @@ pub struct NodeSpec {
     pub metadata_id_ext: Option<bool>,
 }
 
+/// Run-time overrides per node that are not part of `NodeSpec` (kept apart so that `NodeSpec` literals in
+/// existing runners keep compiling): see `MockCluster::{remove_node, set_node_location}`.
+#[derive(Clone, Debug, Default, PartialEq, Eq)]
+pub struct NodeOverride {
+    /// the node left the cluster: the other nodes' `system.peers` omit it
+    pub hidden: bool,
+    /// `data_center` is a null cell in system.local / system.peers
+    pub null_dc: bool,
+    /// `rack` is a null cell in system.local / system.peers
+    pub null_rack: bool,
+}
+
 impl NodeSpec {
     pub fn new(idx: usize, dc: &str, rack: &str, tokens: Vec<i64>, nr_shards: u16) -> NodeSpec {
         NodeSpec { host_id: host_id_for(idx), dc: dc.into(), rack: rack.into(), tokens, nr_shards, msb_ignore: 12, metadata_id_ext: None }
@@ -287,7 +299,7 @@ fn tokens_cell(tokens: &[i64]) -> Cell {
 }
 
 /// The system table `qualified` ("system.local", ...) as seen from node `node`; `None` = unknown.
-pub fn system_table(spec: &ClusterSpec, cluster_id: u8, node: usize, qualified: &str, down: &[bool]) -> Option<SysTable> {
+pub fn system_table(spec: &ClusterSpec, cluster_id: u8, node: usize, qualified: &str, ov: &[NodeOverride]) -> Option<SysTable> {
     use CqlType::*;
     let q = qualified.to_ascii_lowercase();
     let (ks, tb) = q.split_once('.')?;
@@ -299,7 +311,7 @@ pub fn system_table(spec: &ClusterSpec, cluster_id: u8, node: usize, qualified: 
             rows,
         })
     };
-    let _ = down;
+    let o = |i: usize| ov.get(i).cloned().unwrap_or_default();
     match q.as_str() {
         "system.local" => {
             let n = &spec.nodes[node];
@@ -328,8 +340,8 @@ pub fn system_table(spec: &ClusterSpec, cluster_id: u8, node: usize, qualified: 
                     cell::inet(ip),
                     cell::inet(ip),
                     cell::inet(ip),
-                    cell::text(&n.dc),
-                    cell::text(&n.rack),
+                    if o(node).null_dc { None } else { cell::text(&n.dc) },
+                    if o(node).null_rack { None } else { cell::text(&n.rack) },
                     tokens_cell(&n.tokens),
                     cell::text(&spec.name),
                     cell::uuid(spec.schema_version),
@@ -344,7 +356,7 @@ pub fn system_table(spec: &ClusterSpec, cluster_id: u8, node: usize, qualified: 
         "system.peers" => {
             let mut rows = Vec::new();
             for (i, n) in spec.nodes.iter().enumerate() {
-                if i == node {
+                if i == node || o(i).hidden {
                     continue;
                 }
                 let ip = ClusterSpec::node_ip(cluster_id, i);
@@ -353,8 +365,8 @@ pub fn system_table(spec: &ClusterSpec, cluster_id: u8, node: usize, qualified: 
                     cell::uuid(n.host_id),
                     cell::inet(ip),
                     cell::inet(ip),
-                    cell::text(&n.dc),
-                    cell::text(&n.rack),
+                    if o(i).null_dc { None } else { cell::text(&n.dc) },
+                    if o(i).null_rack { None } else { cell::text(&n.rack) },
                     tokens_cell(&n.tokens),
                     cell::uuid(spec.schema_version),
                     cell::text("3.0.8"),
@@ -552,7 +564,7 @@ pub fn answer_system_select(
     node: usize,
     sel: &Select,
     values: &[super::wire::Value],
-    down: &[bool],
+    ov: &[NodeOverride],
 ) -> Option<SysAnswer> {
     let (ks, tb) = sel.table.split_once('.')?;
     if ks != "system" && ks != "system_schema" {
@@ -566,7 +578,7 @@ pub fn answer_system_select(
     if !spec.options.scylla_tables && (sel.table == "system_schema.scylla_tables" || sel.table == "system_schema.scylla_keyspaces") {
         return Some(SysAnswer::NoSuchTable);
     }
-    match system_table(spec, cluster_id, node, &sel.table, down) {
+    match system_table(spec, cluster_id, node, &sel.table, ov) {
         Some(t) => Some(project(ks, tb, &t.columns, &t.rows, sel, values)),
         None => Some(SysAnswer::Rows {
             columns: sel.columns.iter().map(|c| ColSpec::new(ks, tb, c, CqlType::Text)).collect(),
